@@ -772,7 +772,10 @@ def flags_and_timestamps(ctx, report, R4='C11.R4', R5='C11.R5'):
                 raise Unsupported('timegm of something that is not the UTC tuple')
             return t[1]
         if d in ('datetime.datetime.fromtimestamp', 'datetime.datetime.utcfromtimestamp'):
-            return Instant(ev.ev(n.args[0]))
+            secs = ev.ev(n.args[0])
+            if isinstance(secs, (int, float)) and secs > 253402300799:
+                raise ValueError('year %d is out of range' % (1970 + int(secs // 31556952)))      # datetime ends with the year 9999
+            return Instant(secs)
         if d == 'datetime.timedelta':
             kw = {k.arg: ev.ev(k.value) for k in n.keywords}
             return Obj(millis=kw.get('milliseconds', 0) + 1000 * kw.get('seconds', 0))
@@ -806,6 +809,22 @@ def flags_and_timestamps(ctx, report, R4='C11.R4', R5='C11.R5'):
                     report.add(R5, pts.construct + '@value[%s]' % ('ms' if ms else 's'), 'the %d byte wire value %d is parsed as %s, expected %d s + %d ms' % (
                         size, want, (getattr(got, 'seconds', got), getattr(got, 'millis', None)), seconds, millis if ms else 0))
                     break
+            # wire values beyond the year 9999 that are not the all-ones value: they cannot be represented, and they are not
+            # "forever" either - composing None back writes all ones, i.e. other bytes than were parsed
+            for wire in ((253402300800 * (1000 if ms else 1), (1 << 63) - 1, sentinel - 1) if size == 8 else ()):
+                report.count(R5)
+                rd = State(wire)
+                try:
+                    Evaluator({'self': rd, 'name': 't', 'milliseconds': ms, 'item_size': size}, phook, pnames).function(pts.node)
+                    got = rd._parsed_values.get('t', 'missing')
+                    if got is None:
+                        report.add(R5, pts.construct + '@beyond-range', 'the %d byte wire value %d (after the year 9999, not the all-ones value) is parsed as None: the '
+                                   'object composes back as %#x, other bytes than it was parsed from' % (size, wire, sentinel))
+                        break
+                except Raised as e:
+                    if 'InvalidValue' not in e.what:
+                        report.add(R5, pts.construct + '@beyond-range', 'the %d byte wire value %d raises %s' % (size, wire, e.what[:60]))
+                        break
             report.count(R5)
             me = State()
             Evaluator({'self': me, 'value': None, 'milliseconds': ms, 'item_size': size}, chook, cnames).function(cts.node)
